@@ -767,6 +767,33 @@ macro_rules! u_fe {
     };
 }
 
+// @harness props=C10,C03,C02 tier=quick reach=off timeout=600 bound="FrontendInternal::recv_reply_with_payload::<VhostUserConfig> for EVERY GET_CONFIG request header the send side accepts (payload 1..=4084 bytes, i.e. size 13..=4096), answered by the backend's failure reply (config body with size 0, no payload, peer stays connected): the reply is read and consumed entirely - a request that was written is never left unanswered on the shared socket" stubs="raw_recvmsg/raw_sendmsg (ghost socket), OwnedFd::drop, handle_alloc_error"
+u_fe! { fn c10_u_reply_with_payload_is_read() {
+    let mut n = mk_internal();
+    let plen: usize = kani::any();
+    kani::assume(plen >= 1 && plen <= 4084);
+    let req = VhostUserMsgHeader::<FrontendReq>::new(FrontendReq::GET_CONFIG, 0, (12 + plen) as u32);
+    let off: u32 = kani::any();
+    // SAFETY: ghost state
+    unsafe {
+        g::put_hdr(0, spec::fe::GET_CONFIG, 0x5, 12);
+        g::put64(12, off as u64); // offset, size = 0
+        g::put64(20, 0);          // flags (4 bytes of it are part of the message)
+        g::G.rx_len = 24;
+        g::G.rx_closed = false;
+        g::G.rx_nfds = 0;
+    }
+    let r = n.recv_reply_with_payload::<VhostUserConfig>(&req);
+    kani::cover!(plen == 4084);
+    assert!(r.is_err(), "C03: the failure encoding is never reported as success");
+    // SAFETY: ghost state
+    unsafe {
+        assert!(g::G.rx_calls > 0 && g::G.rx_pos == 24, "C10/C03: the reply to a request that was written is read and consumed (otherwise the next caller on the shared socket takes it for its own)");
+        assert!(!g::G.blocked, "C03: no wait for bytes the peer never sends");
+    }
+    std::mem::forget(r);
+} }
+
 // @harness props=C06,C20 tier=quick native=yes bound="is_reply_for: all pairs of (request, flags) words of reply and request headers (2^128)" stubs="-"
 #[kani::proof]
 fn c06_u_is_reply_for() {
